@@ -88,13 +88,20 @@ Definition meta_del (s : store) (k : N) : store :=
   St (adel (meta s) k) (vocab s) (tomb s) (embs s) (cache s).
 
 (* SlabRouter::put (of a cache-class key only its presence is tracked: values are not observed) *)
-Definition put (s : store) (k : N) (v : value) : store :=
+(* [slab_mirror]: for an embedding-class key the slab entry always mirrors the value just
+   written -- a value without (usable) embedding drops the vector of an earlier write (true after
+   the fix; before it the old vector stayed and `get` returned it as part of the new value) *)
+Definition emb_store (slab_mirror : bool) (s : store) (id : N) (ov : option N) : store :=
+  match ov with
+  | Some vec => if dimok vec then emb_set s id vec else if slab_mirror then emb_del s id else s
+  | None => if slab_mirror then emb_del s id else s
+  end.
+Definition put (slab_mirror : bool) (s : store) (k : N) (v : value) : store :=
   if is_cache k then
     St (meta s) (vocab s) (tomb s) (embs s) (if existsb (N.eqb k) (cache s) then cache s else k :: cache s)
   else if is_emb k then
     let '(s1, id) := index_goc s k in
-    let s2 := match vemb v with Some vec => emb_set s1 id vec | None => s1 end in
-    meta_set s2 k v
+    meta_set (emb_store slab_mirror s1 id (vemb v)) k v
   else meta_set s k v.
 
 Definition has_meta (s : store) (k : N) : bool :=
@@ -157,13 +164,19 @@ Definition log_del (s : store) (k : N) : list wentry :=
 
 (* apply_wal_entry.  [replay_index_fixed]: MetadataSet of an embedding-class key re-creates the
    entity-index entry exactly as the live `put` does (true after the fix). *)
-Definition apply_entry (replay_index_fixed : bool) (s : store) (e : wentry) : store :=
+Definition apply_entry (replay_index_fixed slab_mirror : bool) (s : store) (e : wentry) : store :=
   match e with
   | MetaSet k v =>
       let s1 := meta_set s k v in
+      let s1' := if replay_index_fixed && is_emb k then fst (index_goc s1 k) else s1 in
       match vemb v with
-      | Some vec => let '(s2, id) := index_goc s1 k in emb_set s2 id vec
-      | None => if replay_index_fixed && is_emb k then fst (index_goc s1 k) else s1
+      | Some vec =>
+          let '(s2, id) := index_goc s1' k in
+          if is_emb k then emb_store slab_mirror s2 id (Some vec) else emb_set s2 id vec
+      | None =>
+          if slab_mirror && is_emb k then
+            match index_get s1' k with Some id => emb_del s1' id | None => s1' end
+          else s1'
       end
   | MetaDel k => meta_del s k
   | EmbSet id vec => emb_set s id vec
@@ -204,7 +217,8 @@ Definition all_operations (es : list wentry) : list wentry :=
 
 (* ---------------------------------------------------------------- the durable store *)
 Record cfg := Cfg { ghost_fixed : bool; replay_index_fixed : bool; tail_repair : bool;
-                    meta_first : bool (* put_durable logs MetadataSet before EmbeddingSet *) }.
+                    meta_first : bool (* put_durable logs MetadataSet before EmbeddingSet *);
+                    slab_mirror : bool }.
 
 Section Durable.
 Variable ser : wentry -> list byte.
@@ -229,9 +243,9 @@ Inductive op := Put (k : N) (v : value) | Del (k : N) | Ckpt.
 Definition step (d : dstore) (o : op) : dstore * bool :=
   match o with
   | Put k v =>
-      if is_cache k then (D (put (st d) k v) (file d) (snap d) (ctr d), true)
+      if is_cache k then (D (put (slab_mirror c) (st d) k v) (file d) (snap d) (ctr d), true)
       else let '(es, s1) := log_put (meta_first c) (st d) k v in
-           (D (put s1 k v) (append (file d) es) (snap d) (ctr d), true)
+           (D (put (slab_mirror c) s1 k v) (append (file d) es) (snap d) (ctr d), true)
   | Del k =>
       if is_cache k then
         let '(s1, ok) := delete (ghost_fixed c) (st d) k in (D s1 (file d) (snap d) (ctr d), ok)
@@ -258,7 +272,7 @@ Definition recover (f : list byte) (sn : option store) : option dstore :=
   match replay_file deser crc true f' with
   | ErrChecksum _ => None
   | Ok es =>
-      Some (D (fold_left (apply_entry (replay_index_fixed c)) (all_operations es)
+      Some (D (fold_left (apply_entry (replay_index_fixed c) (slab_mirror c)) (all_operations es)
                          (match sn with Some s => s | None => empty_store end))
               f' sn 0)
   end.
